@@ -10,6 +10,7 @@ import (
 	"encoding/hex"
 	"fmt"
 	"sort"
+	"sync"
 
 	"github.com/attestantio/go-eth2-client/api"
 	spec "github.com/attestantio/go-eth2-client/spec"
@@ -162,6 +163,14 @@ type RecKM struct {
 	spectypes.KeyManager
 	Signs []SignEvent
 	BN    *RecBeacon
+	mu    sync.Mutex // the validator-level harnesses sign from queue-consumer goroutines
+}
+
+// SignCount is the number of SignBeaconObject calls so far (safe to call from another goroutine).
+func (k *RecKM) SignCount() int {
+	k.mu.Lock()
+	defer k.mu.Unlock()
+	return len(k.Signs)
 }
 
 func NewRecKM() *RecKM { return &RecKM{KeyManager: tu.NewTestingKeyManager()} }
@@ -173,7 +182,9 @@ func (k *RecKM) SignBeaconObject(obj ssz.HashRoot, domain phase0.Domain, pk []by
 	if k.BN != nil {
 		ev.Epoch = k.BN.LastEpoch
 	}
+	k.mu.Lock()
 	k.Signs = append(k.Signs, ev)
+	k.mu.Unlock()
 	return sig, r, err
 }
 
